@@ -327,6 +327,8 @@ def run(tier, seed, result):
     notes.append(c06_call.run(tier, seed, result))
     from . import c06_sched
     notes.append(c06_sched.run(tier, seed, result))
+    from . import c06_ack_threads
+    notes.append(c06_ack_threads.run(tier, seed, result, 'server'))
     result.assumptions += [
         f'at most {cap} emits-with-callback per connection of one client, 1 '
         'for the others, 0 for the last (bounds the id counters)',
